@@ -5,6 +5,8 @@ from .common import Report, EXIT_INCONCLUSIVE
 
 REGISTRY = {
     'C01': ('verif.p_mc', 'run_c01'),
+    'C02': ('verif.p_mc', 'run_c02'),
+    'C03': ('verif.p_mc', 'run_c03'),
     'C12': ('verif.p_graph', 'run_c12'),
     'C13': ('verif.p_graph', 'run_c13'),
 }
